@@ -36,9 +36,10 @@ def gen_tile(rng, mode, pattern):
         a = (rng.normal(size=(256, 256)) * scale + rng.choice([0.0, 5.0 * scale])).astype(dt)
         _apply_pattern(rng, a, pattern, lambda m: a.__setitem__(m, np.nan))
         return a
-    hi = min(int(np.iinfo(dt).max), 30000)
+    # full dynamic range of the type in half of the tiles (means of large 32-bit values are not exact in float32)
+    hi = int(np.iinfo(dt).max) if rng.random() < 0.5 else min(int(np.iinfo(dt).max), 30000)
     lo = 0  # zero means undefined for integer tiles and updates keep the larger value: negative data are outside the statements
-    a = rng.integers(lo, hi, (256, 256)).astype(dt)
+    a = rng.integers(lo, hi, (256, 256), dtype=np.int64).astype(dt)
     _apply_pattern(rng, a, pattern, lambda m: a.__setitem__(m, 0))
     return a
 
